@@ -358,6 +358,10 @@ func piecesToText(pieces []string, unit, eol string) string {
 			write(" " + opGlyph[v] + " ")
 		case "op2":
 			write(" " + op2Glyph[v] + " ")
+		case "opt": // no blank on either side
+			write(opGlyph[v])
+		case "op2t":
+			write(op2Glyph[v])
 		case "sp":
 			if !atLineStart {
 				write(" ")
